@@ -58,7 +58,17 @@ Pro4 == <<Config(1, 1001, "B", CfgB), Create(2, 1002), Create(3, 1003), Create(4
           Line(5, 1005, 2, "NICK", <<"alice">>), Line(6, 1006, 2, "USER", <<"ua", "0", "*", "A">>),
           Line(7, 1007, 3, "NICK", <<"bob">>), Line(8, 1008, 3, "USER", <<"ub", "0", "*", "B">>),
           Line(9, 1009, 2, "OPER", <<"op", "pw">>)>>
-Prologue == <<Pro1, Pro2, Pro3, Pro4>>
+(* a nick-only (not logged in) session, an away user, a channel created with upper-case letters, *)
+(* an invite-only channel with an operator of the network outside it                             *)
+Pro5 == <<Config(1, 1001, "A", CfgA), Create(2, 1002), Create(3, 1003), Create(4, 1004),
+          Line(5, 1005, 2, "NICK", <<"alice">>), Line(6, 1006, 2, "USER", <<"ua", "0", "*", "A">>),
+          Line(7, 1007, 3, "NICK", <<"bob">>), Line(8, 1008, 3, "USER", <<"ub", "0", "*", "B">>),
+          Line(9, 1009, 4, "NICK", <<"carol">>),
+          Line(10, 1010, 2, "JOIN", <<"#A">>), Line(11, 1011, 3, "JOIN", <<"#a">>),
+          Line(12, 1012, 2, "MODE", <<"#A", "+i">>), Line(13, 1013, 3, "AWAY", <<"gone">>),
+          Create(14, 1014), Line(15, 1015, 14, "NICK", <<"dave">>), Line(16, 1016, 14, "USER", <<"ud", "0", "*", "D">>),
+          Line(17, 1017, 14, "OPER", <<"op", "pw">>)>>
+Prologue == <<Pro1, Pro2, Pro3, Pro4, Pro5>>
 
 NickArgs == {"alice", "Alice", "bob", "dave", "1bad"}
 ChanArgs == {"#a", "#A", "#b"}
@@ -71,7 +81,7 @@ ClientLines(fam) ==
         THEN {<<"JOIN", <<c>>>> : c \in ChanArgs} \cup {<<"JOIN", <<"#a", "k1">>>>, <<"JOIN", <<"#a,#b">>>>}
              \cup {<<"PART", <<c>>>> : c \in {"#a", "#A"}}
              \cup {<<"KICK", <<"#a", x, "out">>>> : x \in {"alice", "BOB", "carol"}}
-             \cup {<<"INVITE", <<x, "#a">>>> : x \in {"bob", "carol"}}
+             \cup {<<"INVITE", <<x, "#a">>>> : x \in {"bob", "carol", "dave"}}
         ELSE {})
   \cup (IF "mode" \in fam
         THEN {<<"MODE", <<"#a", m>>>> : m \in {"+i", "-i", "-t", "+t", "-n", "+x", "+b"}}
@@ -79,6 +89,8 @@ ClientLines(fam) ==
              \cup {<<"MODE", <<"#a", m, x>>>> : m \in {"+o", "-o"}, x \in {"alice", "bob"}}
              \cup {<<"MODE", <<"#a", m, b>>>> : m \in {"+b", "-b"}, b \in {"bob!*@*", "*!*@robust/0x3"}}
              \cup {<<"MODE", <<"alice", "+i">>>>, <<"MODE", <<"bob", "+G">>>>}
+             (* compound strings: a ban-list query or an unknown letter mixed with real changes *)
+             \cup {<<"MODE", <<"#a", m>>>> : m \in {"+b-t", "+b+i", "-t+b", "+z-t", "+ti", "-k+b"}}
         ELSE {})
   \cup (IF "talk" \in fam
         THEN {<<"PRIVMSG", <<"#a", "hi">>>>, <<"NOTICE", <<"#A", "hi">>>>, <<"PRIVMSG", <<"bob", "hi">>>>,
